@@ -1,0 +1,273 @@
+//! Verification hooks (cargo feature `verif_hooks`, off by default).
+//!
+//! Read-only access for the external verification harness in /verif: thin public wrappers
+//! around crate-private functions and types. Nothing here is compiled without the feature and
+//! nothing here changes behaviour with it: wrappers call the real functions, the statistics
+//! only read, and the receive tap only records.
+
+use std::{
+    net::IpAddr,
+    sync::{
+        atomic::{AtomicU32, Ordering},
+        Mutex,
+    },
+};
+
+use bevy::{
+    prelude::*,
+    reflect::{Reflect, TypeRegistry},
+};
+use uuid::Uuid;
+
+use crate::{
+    lib_priv::SyncTrackerRes, networking::assets::SyncAssetTransfer, proto::Message,
+    SyncConnectionParameters,
+};
+
+/// Public mirror of the crate-private `proto::Message`.
+#[derive(Debug, Clone, PartialEq, Eq)]
+pub enum VMessage {
+    EntitySpawn { id: Uuid },
+    EntityParented { entity_id: Uuid, parent_id: Uuid },
+    EntityDelete { id: Uuid },
+    ComponentUpdated { id: Uuid, name: String, data: Vec<u8> },
+    StandardMaterialUpdated { id: Uuid, material: Vec<u8> },
+    MeshUpdated { id: Uuid, url: String },
+    ImageUpdated { id: Uuid, url: String },
+    AudioUpdated { id: Uuid, url: String },
+    PromoteToHost,
+    NewHost { ip: IpAddr, port: u16, web_port: u16, max_transfer: usize },
+    RequestInitialSync,
+    FinishedInitialSync,
+}
+
+impl From<&Message> for VMessage {
+    fn from(m: &Message) -> Self {
+        match m {
+            Message::EntitySpawn { id } => VMessage::EntitySpawn { id: *id },
+            Message::EntityParented {
+                entity_id,
+                parent_id,
+            } => VMessage::EntityParented {
+                entity_id: *entity_id,
+                parent_id: *parent_id,
+            },
+            Message::EntityDelete { id } => VMessage::EntityDelete { id: *id },
+            Message::ComponentUpdated { id, name, data } => VMessage::ComponentUpdated {
+                id: *id,
+                name: name.clone(),
+                data: data.clone(),
+            },
+            Message::StandardMaterialUpdated { id, material } => {
+                VMessage::StandardMaterialUpdated {
+                    id: *id,
+                    material: material.clone(),
+                }
+            }
+            Message::MeshUpdated { id, url } => VMessage::MeshUpdated {
+                id: *id,
+                url: url.clone(),
+            },
+            Message::ImageUpdated { id, url } => VMessage::ImageUpdated {
+                id: *id,
+                url: url.clone(),
+            },
+            Message::AudioUpdated { id, url } => VMessage::AudioUpdated {
+                id: *id,
+                url: url.clone(),
+            },
+            Message::PromoteToHost => VMessage::PromoteToHost,
+            Message::NewHost { params } => match params {
+                SyncConnectionParameters::Socket {
+                    ip,
+                    port,
+                    web_port,
+                    max_transfer,
+                } => VMessage::NewHost {
+                    ip: *ip,
+                    port: *port,
+                    web_port: *web_port,
+                    max_transfer: *max_transfer,
+                },
+            },
+            Message::RequestInitialSync => VMessage::RequestInitialSync,
+            Message::FinishedInitialSync => VMessage::FinishedInitialSync,
+        }
+    }
+}
+
+impl From<&VMessage> for Message {
+    fn from(m: &VMessage) -> Self {
+        match m.clone() {
+            VMessage::EntitySpawn { id } => Message::EntitySpawn { id },
+            VMessage::EntityParented {
+                entity_id,
+                parent_id,
+            } => Message::EntityParented {
+                entity_id,
+                parent_id,
+            },
+            VMessage::EntityDelete { id } => Message::EntityDelete { id },
+            VMessage::ComponentUpdated { id, name, data } => {
+                Message::ComponentUpdated { id, name, data }
+            }
+            VMessage::StandardMaterialUpdated { id, material } => {
+                Message::StandardMaterialUpdated { id, material }
+            }
+            VMessage::MeshUpdated { id, url } => Message::MeshUpdated { id, url },
+            VMessage::ImageUpdated { id, url } => Message::ImageUpdated { id, url },
+            VMessage::AudioUpdated { id, url } => Message::AudioUpdated { id, url },
+            VMessage::PromoteToHost => Message::PromoteToHost,
+            VMessage::NewHost {
+                ip,
+                port,
+                web_port,
+                max_transfer,
+            } => Message::NewHost {
+                params: SyncConnectionParameters::Socket {
+                    ip,
+                    port,
+                    web_port,
+                    max_transfer,
+                },
+            },
+            VMessage::RequestInitialSync => Message::RequestInitialSync,
+            VMessage::FinishedInitialSync => Message::FinishedInitialSync,
+        }
+    }
+}
+
+/// `bincode::serialize(&Message)` exactly as every send site does it.
+pub fn encode_message(m: &VMessage) -> Vec<u8> {
+    bincode::serialize(&Message::from(m)).unwrap()
+}
+
+/// `bincode::deserialize::<Message>` exactly as both `poll_for_messages` do it (they unwrap).
+pub fn decode_message(bytes: &[u8]) -> Result<VMessage, String> {
+    bincode::deserialize::<Message>(bytes)
+        .map(|m| VMessage::from(&m))
+        .map_err(|e| e.to_string())
+}
+
+pub fn reflect_to_bin(compo: &dyn Reflect, registry: &TypeRegistry) -> Result<Vec<u8>, String> {
+    crate::binreflect::reflect_to_bin(compo, registry).map_err(|e| e.to_string())
+}
+
+pub fn bin_to_reflect(data: &[u8], registry: &TypeRegistry) -> Box<dyn Reflect> {
+    crate::binreflect::bin_to_reflect(data, registry)
+}
+
+pub fn mesh_to_bin(mesh: &Mesh) -> Vec<u8> {
+    crate::networking::assets::verif_access::mesh_to_bin(mesh)
+}
+
+pub fn bin_to_mesh(bin: &[u8]) -> Mesh {
+    crate::networking::assets::verif_access::bin_to_mesh(bin)
+}
+
+pub fn image_to_bin(image: &Image) -> Option<Vec<u8>> {
+    crate::networking::assets::verif_access::image_to_bin(image)
+}
+
+pub fn bin_to_image(bin: &[u8]) -> Option<Image> {
+    crate::networking::assets::verif_access::bin_to_image(bin)
+}
+
+/// A real `SyncAssetTransfer` (HTTP endpoint + caches) owned by the harness.
+pub struct AssetEndpoint(SyncAssetTransfer);
+
+impl AssetEndpoint {
+    pub fn new(addr: IpAddr, port: u16, max_transfer: usize) -> Self {
+        AssetEndpoint(SyncAssetTransfer::new(addr, port, max_transfer))
+    }
+    pub fn serve_mesh(&mut self, id: &Uuid, mesh: &Mesh) -> String {
+        self.0.serve_mesh(id, mesh)
+    }
+    pub fn serve_image(&mut self, id: &Uuid, image: &Image) -> String {
+        self.0.serve_image(id, image)
+    }
+    pub fn serve_audio(&mut self, id: &Uuid, audio: &AudioSource) -> String {
+        self.0.serve_audio(id, audio)
+    }
+    pub fn stats(&self) -> AssetStats {
+        self.0.verif_stats()
+    }
+}
+
+#[derive(Debug, Clone, Default, PartialEq, Eq)]
+pub struct AssetStats {
+    pub meshes: usize,
+    pub images: usize,
+    pub audios: usize,
+    pub meshes_to_apply: usize,
+    pub images_to_apply: usize,
+    pub audios_to_apply: usize,
+    pub downloads_queued: usize,
+    pub downloads_active: usize,
+}
+
+pub fn asset_stats(world: &World) -> Option<AssetStats> {
+    world
+        .get_resource::<SyncAssetTransfer>()
+        .map(|t| t.verif_stats())
+}
+
+#[derive(Debug, Clone, Default, PartialEq, Eq)]
+pub struct TrackerStats {
+    pub uuid_to_entity: Vec<(Uuid, Entity)>,
+    pub entity_to_uuid: Vec<(Entity, Uuid)>,
+    pub queue: Vec<(Uuid, String)>,
+    pub component_tokens: Vec<(Uuid, String)>,
+    pub handle_tokens: Vec<Uuid>,
+    pub sync_materials: bool,
+    pub sync_meshes: bool,
+    pub sync_audios: bool,
+    pub host_promotion_in_progress: bool,
+}
+
+pub fn tracker_stats(world: &World) -> Option<TrackerStats> {
+    let t = world.get_resource::<SyncTrackerRes>()?;
+    let mut s = TrackerStats {
+        uuid_to_entity: t.uuid_to_entity.iter().map(|(u, e)| (*u, *e)).collect(),
+        entity_to_uuid: t.entity_to_uuid.iter().map(|(e, u)| (*e, *u)).collect(),
+        queue: t
+            .changed_components_to_send
+            .iter()
+            .map(|c| (c.change_id.id, c.change_id.name.clone()))
+            .collect(),
+        component_tokens: t
+            .pushed_component_from_network
+            .iter()
+            .map(|c| (c.id, c.name.clone()))
+            .collect(),
+        handle_tokens: t.pushed_handles_from_network.iter().copied().collect(),
+        sync_materials: t.sync_materials,
+        sync_meshes: t.sync_meshes,
+        sync_audios: t.sync_audios,
+        host_promotion_in_progress: t.host_promotion_in_progress,
+    };
+    s.uuid_to_entity.sort();
+    s.entity_to_uuid.sort();
+    s.component_tokens.sort();
+    s.handle_tokens.sort();
+    Some(s)
+}
+
+static CURRENT_PEER: AtomicU32 = AtomicU32::new(0);
+static TAP: Mutex<Vec<(u32, bool, VMessage)>> = Mutex::new(Vec::new());
+
+/// The harness names the App it is about to update; received messages are attributed to it.
+pub fn set_current_peer(peer: u32) {
+    CURRENT_PEER.store(peer, Ordering::SeqCst);
+}
+
+/// Drain the receive tap: (peer, received_as_server, message) in processing order.
+pub fn drain_tap() -> Vec<(u32, bool, VMessage)> {
+    std::mem::take(&mut *TAP.lock().unwrap_or_else(|e| e.into_inner()))
+}
+
+pub(crate) fn tap(as_server: bool, message: &Message) {
+    TAP.lock()
+        .unwrap_or_else(|e| e.into_inner())
+        .push((CURRENT_PEER.load(Ordering::SeqCst), as_server, message.into()));
+}
